@@ -46,6 +46,16 @@ def delete_fields(fields, resources=None, regex=True):
                     primary_key = [primary_key]
                 if any(k not in new_field_names[resource['name']] for k in primary_key):
                     del resource['schema']['primaryKey']
+                # ... and neither is a foreign key
+                foreign_keys = [
+                    fk for fk in resource['schema'].get('foreignKeys') or []
+                    if all(k in new_field_names[resource['name']] for k in ([fk['fields']] if isinstance(fk.get('fields'), str)
+                                                  else fk.get('fields') or []))
+                ]
+                if foreign_keys:
+                    resource['schema']['foreignKeys'] = foreign_keys
+                elif 'foreignKeys' in resource['schema']:
+                    del resource['schema']['foreignKeys']
         yield package.pkg
 
         for resource in package:
